@@ -330,7 +330,10 @@ def make_ini():
         # two sections (possibly the same name twice), options whose names differ only in the case of one letter, duplicates override
         c1 = sstr.fresh_str(en, "c1", 1, "kK")
         c2 = sstr.fresh_str(en, "c2", 1, "kK")
-        v1 = sstr.fresh_str(en, "v1", 1, "ab1")
+        # a value may start with a backslash (UNC path, \\d+); one that ends with a backslash is a line continuation, not generated
+        v1 = cat(sstr.fresh_str(en, "v1", 1, "ab1\\"), "z" if en.flag("v1_two") else "")
+        if len(v1) == 1:
+            en.assume(cps_of(v1)[0] != 92)
         v2 = sstr.fresh_str(en, "v2", 1, "ab1")
         v3 = sstr.fresh_str(en, "v3", 1, "ab1")
         same_section = en.flag("same_section")
